@@ -1,9 +1,11 @@
 import TF.Proofs.MmrSucc
 import TF.Proofs.MmrMember
+import TF.Proofs.MmrSuccMain
 /-!
 # C12 — MMR successor proofs are complete, sound and total
 
-Property theorems only (helper lemmas: `TF/Proofs/MmrE.lean`, `TF/Proofs/MmrSucc.lean`).
+Property theorems only (helper lemmas: `TF/Proofs/MmrE.lean`, `TF/Proofs/MmrSucc.lean`; completeness of the generated
+proof: `TF/Proofs/MmrSuccBlk.lean`, `MmrSuccGen.lean`, `MmrSuccDig.lean`, `MmrSuccFill.lean`, `MmrSuccMain.lean`).
 
 Model: `TF.Model.MmrE.verify H dflt paths old new : Option Bool` is the hand model of
 `MmrSuccessorProof::verify` (`none` = panic or non-termination), `newFromBatchAppend` of `new_from_batch_append`;
@@ -185,27 +187,46 @@ theorem honest_proof_verifies (g : Nat → D) (m n : Nat) (hmn : m ≤ n) (hn : 
     exact ⟨this.1, by omega⟩)
 example : (3 : Nat) ≤ 5 ∧ 5 < 2 ^ 64 := by decide
 
-/-- the full completeness claim of the property: for every consistent accumulator and every list of appended leafs
-    the generated proof verifies between the old accumulator and the resulting one (stated, not yet proved in
-    general: see `new_from_batch_append_verifies_partial` and the bounded test `mmrs free_check`) -/
-def new_from_batch_append_verifies_statement : Prop :=
-  ∀ (D : Type) [DecidableEq D] (H : D → D → D) (dflt : D) (old : Acc D) (leafs : List D),
-    TF.popCount old.count = old.peaks.length → old.count + leafs.length < 2 ^ 63 →
-    ∃ new paths, Acc.appendAll H leafs old = some new ∧ newFromBatchAppend H dflt old leafs = some paths ∧
-      verify H dflt paths old new = some true
+omit [DecidableEq D] in
+/-- **the generated proof is the honest proof**: on the accumulator of the first `m` leaves of a leaf list `g`,
+    `new_from_batch_append` with the next `k` leaves returns exactly `succPathsOf H g m (m + k)` — for every old peak,
+    highest first, the from-scratch digests of its siblings from its own level up to the new peak above it
+    (the needed node indices found by walking `parent` / `right_sibling` / `left_sibling` up to the new peaks are the
+    post-order indices of these sibling blocks, and the replay of the appends fills in each of them) -/
+theorem new_from_batch_append_is_honest_proof (g : Nat → D) (m k : Nat) (hn : m + k < 2 ^ 63) :
+    newFromBatchAppend H dflt ⟨m, peaks H m g⟩ ((List.range k).map (fun i => g (m + i)))
+      = some (succPathsOf H g m (m + k)) :=
+  gen_eq_honest H dflt g m k hn
+example : newFromBatchAppend (fun a b : Nat => a + 2 * b) 0 ⟨3, peaks (fun a b : Nat => a + 2 * b) 3 (fun i => i + 1)⟩
+    ((List.range 3).map (fun i => (fun i => i + 1) (3 + i))) = some [11, 4, 5] := by decide +kernel
 
-/-- what is proved of it: for accumulators over a leaf list `g`, appending `g m … g (m+k-1)` to the accumulator of the
-    first `m` leaves yields the from-scratch accumulator of the first `m+k` leaves (proved), and *if*
-    `new_from_batch_append` returns the honest sibling digests (the node-index theory of C16; checked for every pair
-    with old + appended ≤ 64 over a free hash algebra by the test `mmrs free_check`, and on the implementation by the
-    correspondence), then the generated proof verifies — for all sizes below `2^64`. -/
-theorem new_from_batch_append_verifies_partial (g : Nat → D) (m k : Nat) (hn : m + k < 2 ^ 64)
-    (hgen : newFromBatchAppend H dflt ⟨m, peaks H m g⟩ ((List.range k).map (fun i => g (m + i)))
-      = some (succPathsOf H g m (m + k))) :
-    ∃ new paths, Acc.appendAll H ((List.range k).map (fun i => g (m + i))) ⟨m, peaks H m g⟩ = some new ∧
-      newFromBatchAppend H dflt ⟨m, peaks H m g⟩ ((List.range k).map (fun i => g (m + i))) = some paths ∧
-      verify H dflt paths ⟨m, peaks H m g⟩ new = some true :=
-  ⟨_, _, appendAll_spec H g k m hn, hgen, honest_proof_verifies H dflt g m (m + k) (by omega) hn⟩
+/-- **completeness — the generated proof verifies**: for every *consistent* accumulator (as many peaks as the leaf
+    count has set bits; the peak digests themselves are arbitrary — every accumulator reachable by `new`, `append`,
+    `mutate_leaf`, … is of this form, `MmrAccumulator::init` can also build others) and every list of appended
+    leafs with fewer than `2^63` leafs in total (the documented domain of `new_from_batch_append`): the appends
+    succeed, `new_from_batch_append` returns (no panic, all loops terminate), and `verify` accepts the returned proof
+    between the old accumulator and the resulting one.
+    The excluded inputs: for an inconsistent old accumulator the Rust code panics (`peaks.pop().unwrap()`, too few
+    peaks) or returns some digest list, and `verify` rejects *every* proof for it (`verify_rejects_inconsistent_old`);
+    see the `example`s below. -/
+theorem new_from_batch_append_verifies (old : Acc D) (leafs : List D)
+    (hcons : TF.popCount old.count = old.peaks.length) (hn : old.count + leafs.length < 2 ^ 63) :
+    ∃ new paths, Acc.appendAll H leafs old = some new ∧ newFromBatchAppend H dflt old leafs = some paths ∧
+      verify H dflt paths old new = some true :=
+  newFromBatchAppend_verifies H dflt old leafs hcons hn
+example : ∃ new paths, Acc.appendAll (fun a b : Nat => a + 2 * b) [5, 6, 8] ⟨3, [7, 9]⟩ = some new ∧
+    newFromBatchAppend (fun a b : Nat => a + 2 * b) 0 ⟨3, [7, 9]⟩ [5, 6, 8] = some paths ∧
+    verify (fun a b : Nat => a + 2 * b) 0 paths ⟨3, [7, 9]⟩ new = some true :=
+  new_from_batch_append_verifies _ _ _ _ (by decide +kernel) (by decide)
+/-! the same instance evaluated by the kernel (peaks `7, 9` are arbitrary digests, not roots of any leaves),
+    and the excluded inconsistent accumulators: too few peaks panic, too many yield a proof that is rejected -/
+example : Acc.appendAll (fun a b : Nat => a + 2 * b) [5, 6, 8] ⟨3, [7, 9]⟩ = some ⟨6, [45, 22]⟩ := by decide +kernel
+example : newFromBatchAppend (fun a b : Nat => a + 2 * b) 0 ⟨3, [7, 9]⟩ [5, 6, 8] = some [19, 5, 7] := by decide +kernel
+example : verify (fun a b : Nat => a + 2 * b) 0 [19, 5, 7] ⟨3, [7, 9]⟩ ⟨6, [45, 22]⟩ = some true := by decide +kernel
+example : newFromBatchAppend (fun a b : Nat => a + 2 * b) 0 ⟨1, []⟩ [5] = none := by decide +kernel
+example : newFromBatchAppend (fun a b : Nat => a + 2 * b) 0 ⟨2, [3, 4]⟩ [5] = some [] ∧
+    Acc.appendAll (fun a b : Nat => a + 2 * b) [5] ⟨2, [3, 4]⟩ = some ⟨3, [3, 4, 5]⟩ ∧
+    verify (fun a b : Nat => a + 2 * b) 0 [] ⟨2, [3, 4]⟩ ⟨3, [3, 4, 5]⟩ = some false := by decide +kernel
 
 /-! concrete accepted / rejected triples (non-vacuity of the hypotheses above), hash `a, b ↦ a + 2·b` on `Nat` -/
 example : verify (fun a b : Nat => a + 2 * b) 0 [5] ⟨1, [3]⟩ ⟨2, [13]⟩ = some true := by decide +kernel
